@@ -61,6 +61,9 @@ struct FVis {
 		// assign(first, last) / assign(range) into arrays that own nothing (default-constructed, cleared): nothing of the old (null or released) storage may be dereferenced
 		op("assign(first,last)-into-empty"); { multi::array<int, D, Alloc<int>> Z0; Z0.assign(C.begin(), C.end()); mix(std::uint64_t(Z0 == C)); multi::array<int, D, Alloc<int>> Z1(C); Z1.clear(); Z1.assign(C.begin(), C.end()); mix(std::uint64_t(Z1.num_elements()));
 			Z1.clear(); Z1.assign(C.begin(), C.end()); for(int e : Z1.elements()) mix(std::uint64_t(e)); multi::array<int, D, Alloc<int>> Z2; Z2.assign(v.begin(), v.end()); mix(std::uint64_t(Z2 == v)); Z2.assign(C.begin(), C.end()); mix(std::uint64_t(Z2 == C)); count("op:assign-into-empty"); }
+		// an array assigned a NAMED read-only view of its own elements with other extents (a sub-block of itself): the source must be read before the old block is released
+		op("assign-from-own-sub-block"); if(C.size() >= 2) { multi::array<int, D, Alloc<int>> Q(C); auto const& sub = std::as_const(Q).sliced(1, Q.size()); Q = sub; for(int e : Q.elements()) mix(std::uint64_t(e)); mix(std::uint64_t(Q.size())); mix(std::uint64_t(Q == C.sliced(1, C.size())));
+			multi::array<int, D, Alloc<int>> Q2(C); multi::array_ref<int, D, typename multi::array<int, D, Alloc<int>>::element_ptr> R2(Q2.sliced(0, Q2.size() - 1).extensions(), Q2.base()); Q2 = R2; mix(std::uint64_t(Q2.size())); for(int e : Q2.elements()) mix(std::uint64_t(e)); count("op:assign-from-own-sub-block"); }
 		// non-trivially destructible elements, including arrays that are (or become) empty
 		op("owning<string>");
 		{ using SA = multi::array<std::string, D, Alloc<std::string>>; SA S(v.extensions()); { L q = 0; for(auto& e : S.elements()) e = std::string(18, 'x') + std::to_string(q++); } SA S2(S); SA S3(S.rotated()); for(auto const& e : S3.elements()) mixs(e);
